@@ -20,7 +20,9 @@ RULE = ("type-directed random expression trees (depth <= 4 quick / 6 thorough) o
         "an item of the same name; each evaluated under default / async / sandboxed (all 9 operators intercepted, default "
         "hooks) / optimized=False environments; plus exhaustive operator pairs and triples for precedence. distinct = "
         "(source text, data) ; non-trivial = the model gives a value or a modelled error class (not 'opaque') and the "
-        "expression has >= 3 nodes kinds or an attribute/subscript access.")
+        "expression has >= 3 nodes kinds or an attribute/subscript access. History stream (oracle only): pairs and random "
+        "sequences of filter expressions whose arguments are ==-equal but differently typed (0/false/0.0, 1/true/1.0, ''/Markup ...) "
+        "evaluated in ONE Environment, each compared with its value in a fresh environment.")
 
 MODES = ["default", "async", "sandbox", "noopt"]
 
@@ -110,6 +112,69 @@ def compare_case(ctx, e, src, tsrc, outs, datas, data_seed, modes=MODES):
             ctx.validated()
 
 
+# ---------------------------------------------------------------- histories inside one Environment
+# (oracle only, outside the Coq model: the value of an expression must not depend on what the same
+#  Environment evaluated before; arguments that are ==-equal but of different type are the sharp case)
+EQ_CLASSES = {"zero": ["0", "false", "0.0"], "one": ["1", "true", "1.0"], "two": ["2", "2.0"], "empty": ['""', '""|safe'],
+              "neg": ["-1", "-1.0"], "none": ["none", "u0"]}
+HIST_TEMPLATES = [
+    'rows|map(attribute="a", default=@)|list', 'rows|map(attribute="c", default=@)|list', 'rows|map(attribute="a", default=@)|first',
+    'rows|sum(attribute="a", start=@)', 'rows|groupby("a", default=@)|map(attribute="grouper")|list', 'rows|groupby("c", default=@)|first|first',
+    'objs|map(attribute="v", default=@)|list', 'lol|map(attribute=@)|list', 'lol|sum(attribute=@)', 'lol|max(attribute=@)', 'lol|sort(attribute=@)|first',
+    'lol|unique(attribute=@)|list|length', 'lol|join(",", attribute=@)', 'lol|selectattr(@)|list|length', 'u0|default(@)', 'n0|default(@, true)',
+    '[1, 2, 3]|batch(2, @)|list', '[1, 2, 3]|slice(2, @)|list', '[@, 5]|first', '[5, @]|sum', '[@]|sum(start=@)', '@|string', '[@, @]|unique|list',
+    '{"k": @}|dictsort', '(@, 1)|max', '3.14159|round(@)', '"abcdef"|truncate(5, @)', '[3, 1]|sort(reverse=@)', '"a b"|wordcount + @', '@ is sameas false',
+    '@ is number', '@ is boolean', '@ in [0, 1]', '{@: "x"}[@]', '[10, 20, 30][@]',
+]
+
+
+def hist_data():
+    return {"rows": [{"a": 1, "b": "x"}, {"b": "y"}, {"a": 0}], "objs": [X.Obj(7, {"v": 1}, []), X.Obj(8, {}, [])],
+            "lol": [[0, 5], [1, 4], [0, 3]], "n0": None}
+
+
+def run_history(ctx):
+    import jinja2
+    from jinja2.sandbox import SandboxedEnvironment
+
+    def fresh(kind):
+        env = {"default": jinja2.Environment, "sandbox": SandboxedEnvironment, "noopt": lambda: jinja2.Environment(optimized=False)}[kind]()
+        return env
+
+    def ev(env, src):
+        return X.real_value(env, src, hist_data())
+
+    plans = []
+    for cname, vals in EQ_CLASSES.items():
+        for t in HIST_TEMPLATES:
+            for d1 in vals:
+                for d2 in vals:
+                    if d1 != d2:
+                        plans.append([t.replace("@", d1), t.replace("@", d2)])
+    allv = [v for vals in EQ_CLASSES.values() for v in vals]
+    for _ in range(ctx.size(150, 3000)):
+        plans.append([ctx.rng.choice(HIST_TEMPLATES).replace("@", ctx.rng.choice(allv)) for _ in range(ctx.rng.randint(3, 7))])
+    for i, plan in enumerate(plans):
+        kind = ("default", "sandbox", "noopt")[i % 3]
+        shared = fresh(kind)
+        got = [ev(shared, src) for src in plan]
+        ok = True
+        for j, src in enumerate(plan):
+            if j == 0:
+                continue
+            alone = ev(fresh(kind), src)
+            if alone != got[j]:
+                ok = False
+                ctx.reject({"kind": "history", "env": kind, "history": plan[:j + 1], "alone": repr(alone), "after_history": repr(got[j])},
+                           f"{src!r} evaluates to {alone!r} in a fresh environment but to {got[j]!r} after {plan[:j]!r} in the same environment",
+                           "C02:history:" + plan[j - 1] + " -> " + src)
+                break
+        ctx.case(sample={"history": plan, "values": [repr(g)[:60] for g in got]} if i % 97 == 0 else None, key=("history", tuple(plan)))
+        ctx.count("history_" + kind)
+        if ok:
+            ctx.validated()
+
+
 def run(ctx):
     X.use_jinja()
     ctx.extra["rule"] = RULE
@@ -124,6 +189,9 @@ def run(ctx):
 
     # ---------------- K-parse
     XP.run_kparse(ctx)
+
+    # ---------------- histories in one environment (oracle only)
+    run_history(ctx)
 
     # ---------------- K-eval / K-gen / oracle
     depth = ctx.size(4, 6)
